@@ -301,7 +301,11 @@ def rejected_invocations(ctx, i, tmproot):
         others = [k for k in KINDS if k != truth]
         p = make_project(rng, root, truth, {others[0]: "stale", others[1]: "agreeing"}, rich=i % 2 == 0)
         cls = ("missing_truth_file", "fewer_than_two_files", "missing_input_file", "missing_output_file", "existing_gen_output",
-               "existing_gen_output_named_with_tilde", "first_file_of_the_truth_kind_missing")[i % 7]
+               "existing_gen_output_named_with_tilde", "first_file_of_the_truth_kind_missing",
+               "input_is_a_directory", "output_is_a_directory", "truth_is_a_directory")[i % 10]
+        a_dir = os.path.join(root, "zq_pkg_{}".format(i))
+        if cls.endswith("_is_a_directory"):
+            os.mkdir(a_dir)  # exists, but is not a file (a package directory given instead of its __init__.py)
         missing = os.path.join(root, "no_such_{}.py".format(i))
         extra_env = None
         flag = {"argparse_function": "--argparse-function", "class": "--class", "function": "--function"}
@@ -317,8 +321,12 @@ def rejected_invocations(ctx, i, tmproot):
                     flag[others[0]], p.files[others[0]], flag[others[0]] + "-name", p.names[others[0]]]
         elif cls == "fewer_than_two_files":
             argv = ["sync", "--truth", truth, flag[truth], p.files[truth], flag[truth] + "-name", p.names[truth]]
-        elif cls in ("missing_input_file", "missing_output_file"):
-            a, b = (missing, p.files[others[0]]) if cls == "missing_input_file" else (p.files[truth], missing)
+        elif cls == "truth_is_a_directory":
+            argv = ["sync", "--truth", truth, flag[truth], a_dir, flag[truth] + "-name", p.names[truth],
+                    flag[others[0]], p.files[others[0]], flag[others[0]] + "-name", p.names[others[0]]]
+        elif cls in ("missing_input_file", "missing_output_file", "input_is_a_directory", "output_is_a_directory"):
+            bad = a_dir if cls.endswith("_is_a_directory") else missing
+            a, b = (bad, p.files[others[0]]) if cls.startswith(("missing_input", "input_is")) else (p.files[truth], bad)
             argv = ["sync_properties", "--input-filename", a, "--input-param", "x.y", "--output-filename", b, "--output-param", "f.h"]
             if i % 2:
                 argv = ["sync_properties", "--output-param", "f.h", "--output-filename", b, "--input-param", "x.y", "--input-filename", a]
@@ -343,7 +351,7 @@ def rejected_invocations(ctx, i, tmproot):
         how, et, last = classify_failure(pr)
         if pr.returncode == 0:
             ctx.report(dict(base, field="exit_status", tag="accepted", expected="non-zero", observed="0"), replay)
-        elif how == "traceback" and et in INTERNAL:
+        elif how == "traceback" and (et in INTERNAL or cls.endswith("_is_a_directory")):
             ctx.report(dict(base, field="exit_status", tag="internal_exception", exc=et, msg=last[:160], expected="usage error / refusal", observed=et), replay)
         if before != after:
             ctx.report(dict(base, field="filesystem", tag="modified", expected="untouched", observed=str(diff_snap(before, after))[:200]), replay)
